@@ -61,11 +61,11 @@ func (j jaValue) wire() []byte {
 
 func (j jaValue) lib() *lorawan.JoinAcceptPayload {
 	p := &lorawan.JoinAcceptPayload{
-		JoinNonce: lorawan.JoinNonce(j.joinNonce),
-		HomeNetID: lorawan.NetID(j.netID),
-		DevAddr:   devAddrOf(j.devAddr),
+		JoinNonce:  lorawan.JoinNonce(j.joinNonce),
+		HomeNetID:  lorawan.NetID(j.netID),
+		DevAddr:    devAddrOf(j.devAddr),
 		DLSettings: lorawan.DLSettings{OptNeg: j.dlSettings&0x80 != 0, RX1DROffset: (j.dlSettings >> 4) & 7, RX2DataRate: j.dlSettings & 15},
-		RXDelay:   j.rxDelay,
+		RXDelay:    j.rxDelay,
 	}
 	switch j.cfKind {
 	case 1:
